@@ -831,12 +831,10 @@ func c07Judge(e *env, pend []c07Pending, reqs []string) {
 			if r[6] != "#1" {
 				e.res.Fail(hx.Violation{Kind: "mismatch", What: "a parsed map literal does not list its items by increasing key (registry_maps_sorted)", Case: p.c}, "")
 			}
-			if r[5] != "-" {
-				e.res.Histogram["second-model:"+strings.SplitN(r[5], ":", 2)[0]]++
-				if r[5] != r[0] { // Registry.Add succeeded ("-" otherwise): r[0] is the verdict of CheckDataRefs
-					e.res.Fail(hx.Violation{Kind: "mismatch", What: "the two models of CheckDataRefs (Model/Checker.v, Model/Compile.v) give different verdicts", Case: p.c,
-						Expected: r[0], Observed: r[5]}, "")
-				}
+			e.res.Histogram["second-model:"+strings.SplitN(r[5], ":", 2)[0]]++
+			if r[5] != r[0] {
+				e.res.Fail(hx.Violation{Kind: "mismatch", What: "the two models of Registry.Add + CheckDataRefs (Model/Checker.v, Model/Compile.v) give different verdicts", Case: p.c,
+					Expected: r[0], Observed: r[5]}, "")
 			}
 		}
 		known := ""
